@@ -85,7 +85,7 @@ enum Effect {
 #[derive(Clone, Copy, Debug, PartialEq)]
 enum BState {
     Created,
-    Approved { by: Pubkey, at: i64 },
+    Approved { by: Pubkey, at: i64, delay_then: u64 },
     Executed,
     Cancelled,
 }
@@ -740,7 +740,7 @@ impl<'a> Sim<'a> {
                     ) {
                         return;
                     }
-                    self.m.bufs.get_mut(key).unwrap().state = BState::Approved { by: *by, at: now };
+                    self.m.bufs.get_mut(key).unwrap().state = BState::Approved { by: *by, at: now, delay_then: self.m.delay.unwrap_or(0) };
                     // the recorded approval is (by, now)
                     if let Some(h) = read_pod::<tl::states::InstructionHeader>(&self.w, key) {
                         obs.require(
@@ -803,7 +803,7 @@ impl<'a> Sim<'a> {
             return;
         }
         // Only approved buffers run.
-        let BState::Approved { by, at } = b.state else {
+        let BState::Approved { by, at, .. } = b.state else {
             obs.violation(P, "exec_requires_approval", format!("state={}", b.state.name()), format!("buffer {key} executed without approval"));
             return;
         };
@@ -1042,6 +1042,16 @@ impl<'a> Sim<'a> {
                     Claim::Exec(e) => *e as usize % 4,
                 };
                 let authority = self.actor(*by);
+                for k in &keys {
+                    if let Some(b) = self.m.bufs.get(k) {
+                        if b.live && matches!(b.state, BState::Approved { .. }) {
+                            obs.probe("approve_attempt_on_approved");
+                        }
+                        if b.live && !self.m.has(&authority, &tld_name(b.exec)) {
+                            obs.probe("approve_attempt_by_non_holder");
+                        }
+                    }
+                }
                 let role = EXEC_ROLES[exec].to_string();
                 let (ix, used) = if *batch || keys.len() > 1 {
                     let mut ix = tl_ix(
@@ -1129,9 +1139,12 @@ impl<'a> Sim<'a> {
                     if b.live {
                         let n = self.now();
                         obs.probe(if n < eta { "exec_attempt_early" } else if n == eta { "exec_attempt_at_eta" } else { "exec_attempt_late" });
-                        if let BState::Approved { by: ap, .. } = b.state {
+                        if let BState::Approved { by: ap, at, delay_then } = b.state {
                             if n >= eta && !self.m.has(&ap, &tld_name(b.exec)) {
                                 obs.probe("exec_attempt_due_but_approver_lost_role");
+                            }
+                            if n < eta && (n as i128) >= at as i128 + delay_then as i128 {
+                                obs.probe("exec_attempt_past_old_delay_before_increased_delay");
                             }
                         }
                     }
